@@ -7,6 +7,8 @@ mod c08;
 mod c09;
 mod c10;
 mod c12;
+mod c15;
+mod cluster;
 mod c17;
 mod c20;
 mod transports;
@@ -33,6 +35,7 @@ fn main() {
         "C10" => c10::run(tier),
         "C12" => c12::run(tier),
         "C12-child" => c12::child(&args),
+        "C15" => c15::run(tier),
         "C17" => c17::run(tier),
         "C20" => c20::run(tier),
         "load-probe" => c06::load_probe_child(&args[3]),
